@@ -123,10 +123,11 @@ func (e Event) String() string {
 
 // Mutation is one applied change of the bucket.
 type Mutation struct {
-	Seq  int
-	Op   Op
-	Key  string
-	Body []byte
+	Client string
+	Seq    int
+	Op     Op
+	Key    string
+	Body   []byte
 }
 
 // Store is the bucket plus the set of parked requests.
@@ -296,11 +297,11 @@ func (s *Store) Deliver(r *Request, f Fault) *Event {
 		}
 	case OpPut:
 		s.Bucket[r.Key] = append([]byte(nil), r.Body...)
-		s.Mut = append(s.Mut, Mutation{Seq: len(s.Log) + 1, Op: OpPut, Key: r.Key, Body: s.Bucket[r.Key]})
+		s.Mut = append(s.Mut, Mutation{Client: r.H.Client, Seq: len(s.Log) + 1, Op: OpPut, Key: r.Key, Body: s.Bucket[r.Key]})
 		ev = s.logLocked(r, "ok", true, 0)
 	case OpDelete:
 		delete(s.Bucket, r.Key)
-		s.Mut = append(s.Mut, Mutation{Seq: len(s.Log) + 1, Op: OpDelete, Key: r.Key})
+		s.Mut = append(s.Mut, Mutation{Client: r.H.Client, Seq: len(s.Log) + 1, Op: OpDelete, Key: r.Key})
 		ev = s.logLocked(r, "ok", true, 0)
 	case OpList:
 		keys := make([]string, 0)
@@ -422,4 +423,15 @@ func LogHash(log []Event) string {
 		fmt.Fprintf(h, "%d|%s|%d|%s|%s|%s|%s|%d|%d\n", e.Seq, e.Client, e.Handle, e.Op, e.Key, e.Hash, e.Outcome, e.SimNs, e.N)
 	}
 	return hex.EncodeToString(h.Sum(nil)[:8])
+}
+
+// MutBy returns the mutations applied by one client from index from on.
+func (s *Store) MutBy(client string, from int) []Mutation {
+	var out []Mutation
+	for _, m := range s.Mut[from:] {
+		if m.Client == client {
+			out = append(out, m)
+		}
+	}
+	return out
 }
